@@ -536,7 +536,7 @@ pub const VALUE_ALPHABET: [&str; 13] =
 
 pub fn key() -> BoxedStrategy<String> {
     prop_oneof![
-        3 => proptest::sample::select(vec!["rt", "if", "title", "title*", "ct", "sz", "obs", "anchor"]).prop_map(String::from),
+        3 => proptest::sample::select(vec!["rt", "if", "title", "title*", "ct", "sz", "obs", "anchor", "rel", "rel", "rev", "type", "hreflang", "media"]).prop_map(String::from),
         2 => "[A-Za-z0-9*_.-]{1,8}",
         1 => "[a-zéλж*]{1,6}",
     ]
@@ -559,6 +559,8 @@ pub fn value_text() -> BoxedStrategy<String> {
         2 => "[a-zA-Z0-9]{0,12}",
         2 => "\\PC{0,40}",
         1 => "[\"\\\\,;<>= \\n\\ra1]{0,40}",
+        // control characters (C0, DEL, C1) and code points whose low byte is a quote / backslash
+        1 => "[\\x00\\x01\\x07\\x1B\\x7F\u{80}\u{85}\u{9F}\u{122}\u{15C}\u{1F422}a\" ]{0,12}",
     ]
     .boxed()
 }
@@ -711,6 +713,18 @@ pub fn run_c17(ctx: &Ctx, rep: &mut Report) {
                 3 => "[<>;,\"\\\\= \\n\\ta-cé€😁]{0,40}",
                 1 => "[<>;,\"\\\\= \\n\\ta-cé€😁]{0,200}",
                 1 => "\\PC{0,60}",
+                // code points whose low byte equals '"' (0x22) or '\\' (0x5C), next to quotes
+                1 => "[<>;=\"\\\\a\u{122}\u{15C}\u{1F422}\u{222}\u{25C}]{0,24}",
+                // long inputs: one structural unit repeated thousands of times
+                1 => (proptest::sample::select(vec![";", ",", "<", "\"", "\\", "<a>,", "<a>;k=\"v\",", ";k=v", " ", "é", "<a>;é=\"😁\\\"\";"]), 1000usize..8000, "[<>;,\"a]{0,4}")
+                    .prop_map(|(unit, n, tail)| {
+                        let mut s = String::from("<x>");
+                        for _ in 0..n {
+                            s.push_str(unit);
+                        }
+                        s.push_str(&tail);
+                        s
+                    }),
                 // every kind of blank (ASCII and multi-byte white space, controls) next to
                 // the structural characters
                 2 => "[<>;,\"\\\\= \\t\\r\\n\\x0B\\x0C\u{85}\u{a0}\u{2003}\u{2028}\u{3000}a]{0,24}",
